@@ -120,8 +120,27 @@ func HarnessC08_BasicHeartbeat() {
 		in.Ingesters[vfOwnID] = mine
 	}
 	store.val = vfCloneDesc(in)
+	// optionally the lifecycler's own state change (run by the stopping delegate
+	// in another goroutine) reaches the store first, a second later
+	raced := !lost && vfChoice("own_write_first", 2) == 1
+	if raced {
+		store.before = func() {
+			vfAdvance(time.Second)
+			d := store.val.(*Desc)
+			e := d.Ingesters[vfOwnID]
+			e.State = LEAVING
+			e.Timestamp = later + 1
+			d.Ingesters[vfOwnID] = e
+		}
+	}
 	l.heartbeat(context.Background())
 	out := store.val.(*Desc)
+	if raced {
+		got := out.Ingesters[vfOwnID]
+		vfAssert(got.Timestamp >= later+1, "C08 the heartbeat timestamp never goes backwards, also when the instance's own state change reached the store first")
+		vfCover("c08-basic-heartbeat-raced")
+		return
+	}
 	for i := 1; i <= 2; i++ {
 		id := vfIDs[i]
 		got, still := out.Ingesters[id]
